@@ -239,7 +239,7 @@ class Paraxial:
         inv = yb[1] * n[1] * ua[1] - ya[1] * n[1] * ub[1]
         return inv[0]
 
-    def marginal_ray(self):
+    def marginal_ray(self, wavelength=None):
         """Find the marginal ray heights and angles
 
         Returns:
@@ -256,10 +256,11 @@ class Paraxial:
             ya = 0
             ua = EPD / (2 * z)
 
-        wavelength = self.optic.primary_wavelength
+        if wavelength is None:
+            wavelength = self.optic.primary_wavelength
         return self._trace_generic(ya, ua, obj_z, wavelength)
 
-    def chief_ray(self):
+    def chief_ray(self, wavelength=None):
         """Find the chief ray heights and angles
 
         Returns:
@@ -272,7 +273,8 @@ class Paraxial:
         u0 = 0.1
         # trace from center of stop on axis
         z0 = surfaces.positions[stop_index]
-        wavelength = self.optic.primary_wavelength
+        if wavelength is None:
+            wavelength = self.optic.primary_wavelength
 
         y, u = self._trace_generic(y0, u0, z0, wavelength, reverse=True,
                                    skip=stop_index+1)
